@@ -159,7 +159,7 @@ func runCasePre(in *In, dir string) *Obs {
 	go func() { startC <- r.Start() }()
 	select {
 	case err = <-startC:
-	case <-time.After(reqTimeout()*time.Duration(len(in.Plugins)+1) + 20*time.Second):
+	case <-time.After(reqTimeout() + 10*time.Second):
 		obs.Outcome = "timeout"
 		obs.Detail = "Adaptation.Start did not return"
 		return obs
